@@ -1360,6 +1360,20 @@ class FnPass:
         self.post_params = None
         self.post_ok_params = None
         self._obl = {}
+        # blocks that only lead to the return (no assignments; goto/drop chains): a state flowing into one is a return state of
+        # its own path, so Ok-ness and the facts about the parameters are not blurred by the join at the shared return block
+        ret_like = set()
+        grew = True
+        while grew:
+            grew = False
+            for blk in fn.blocks:
+                if blk.idx in ret_like or blk.cleanup or any(s_[0] in ("=", "setdiscr") for s_ in blk.stmts):
+                    continue
+                t_ = blk.term
+                if t_[0] == "return" or (t_[0] == "goto" and t_[1] in ret_like) or (t_[0] == "drop" and t_[2] in ret_like):
+                    ret_like.add(blk.idx)
+                    grew = True
+        ret_like.discard(0)
         iters = 0
         while work:
             iters += 1
@@ -1374,6 +1388,11 @@ class FnPass:
             outs = self.transfer_block(b, dict(st))
             for succ, sst in outs:
                 if sst is None:
+                    continue
+                if succ in ret_like:
+                    self.on_return(sst)
+                    if IN[succ] is None:
+                        IN[succ] = {}       # reached (statistics only)
                     continue
                 old = IN[succ]
                 if old is None:
@@ -2367,6 +2386,9 @@ class FnPass:
                 taint = taint | self.read_place(st, rv[2])[2]
         elif sd and sd[2] == "call":
             site = fn.blocks[sd[0]].term[1]
+            if (site.get("callee") or "").rsplit("::", 1)[-1] == "len":
+                # the length of a buffer is not tainted by the buffer's contents (the call result carries its own labels)
+                return taint
             for o in site["args"]:
                 taint = taint | self._cond_taint(st, o, depth + 1)
         return taint
